@@ -125,8 +125,9 @@ class RxView:
         inv("bd_strobes_out", z3.And(self.complete_out == self.st_c, self.invalid_out == self.st_i))
         # byte counting
         w = self.w
-        inv("icnt_zero_outside_raw_packet", z3.Implies(self.pv == 0, self.icnt == 0))
+        inv("icnt_zero_until_first_byte", z3.Implies(z3.Not(is_open), self.icnt == 0))
         inv("icnt_le_max", z3.ULE(self.icnt, self.max_packet))
+        inv("pidx_le_max", z3.ULE(self.pidx, self.max_packet))
         inv("pidx_counts_processed_bytes", z3.Implies(is_open, self.icnt == self.pidx + zx(self.pb_g, w) + 1))
         inv("pidx_lt_max_when_closing", z3.Implies(closing, z3.ULT(self.pidx, self.max_packet)))
         inv("pidx_zero_outside_packet", z3.Implies(z3.Not(z3.Or(is_open, closing)), self.pidx == 0))
